@@ -35,7 +35,13 @@ Proof.
   reflexivity.
 Qed.
 
-Ltac cops := unfold c_tern, c_lt, c_eq, c_le, c_gt, c_ge, c_ne, cb in *.
+Ltac cops := unfold c_tern, c_lt, c_eq, c_le, c_gt, c_ge, c_ne, c_not, c_land, c_lor in *; rewrite ?cb_0 in *.
+(* one case split per comparison, whatever comparisons the generated text uses *)
+Ltac ctests := repeat match goal with
+  | |- context[Z.ltb ?a ?b] => destruct (Z.ltb a b) eqn:?
+  | |- context[Z.leb ?a ?b] => destruct (Z.leb a b) eqn:?
+  | |- context[Z.eqb ?a ?b] => destruct (Z.eqb a b) eqn:?
+  end.
 
 Section Apply.
   Variables uplo mt nt : Z.
@@ -45,16 +51,14 @@ Section Apply.
     (uplo <> matrix_upper_v /\ 1 <= m <= mt - 1 /\ 0 <= n <= nt - 1 /\ n < m).
   Proof.
     rewrite calls_L, In_pairs, !In_zrange. subst G. cbn [apply_New_G md_of apply_uplo apply_descA_mt apply_descA_nt md_mt md_nt].
-    unfold apply_matrix_upper, matrix_upper_v. cops.
-    destruct (uplo =? 121) eqn:E1; destruct (m <? nt) eqn:E2; cbn [Z.eqb]; lia.
+    unfold apply_matrix_upper, matrix_upper_v. cops. ctests; cbn [negb andb orb]; lia.
   Qed.
 
   Lemma In_U m n : In (m, n) (map call_tile (calls_of (apply_APPLY_U_class G))) <->
     (uplo <> matrix_lower_v /\ 0 <= m <= mt - 1 /\ 0 <= n <= nt - 1 /\ m < n).
   Proof.
     rewrite calls_U, In_pairs, !In_zrange. subst G. cbn [apply_New_G md_of apply_uplo apply_descA_mt apply_descA_nt md_mt md_nt].
-    unfold apply_matrix_lower, matrix_lower_v. cops.
-    destruct (uplo =? 122) eqn:E1; cbn [Z.eqb]; lia.
+    unfold apply_matrix_lower, matrix_lower_v. cops. ctests; cbn [negb andb orb]; lia.
   Qed.
 
   Lemma In_D m n : In (m, n) (map call_tile (calls_of (apply_APPLY_DIAG_class G))) <->
@@ -62,9 +66,8 @@ Section Apply.
   Proof.
     rewrite calls_D, in_map_iff. subst G. cbn [apply_New_G md_of apply_uplo apply_descA_mt apply_descA_nt md_mt md_nt].
     cops. split.
-    - intros (k & E & Hk). inv E. apply In_zrange in Hk. destruct (mt <? nt) eqn:E2; cbn [Z.eqb] in Hk; lia.
-    - intros (H1 & H2 & ->). exists n. split; [reflexivity|]. apply In_zrange.
-      destruct (mt <? nt) eqn:E2; cbn [Z.eqb]; lia.
+    - intros (k & E & Hk). inv E. apply In_zrange in Hk. revert Hk. ctests; cbn [negb andb orb]; lia.
+    - intros (H1 & H2 & ->). exists n. split; [reflexivity|]. apply In_zrange. ctests; cbn [negb andb orb]; lia.
   Qed.
 
   Lemma In_region m n : In (m, n) (region uplo mt nt) <->
